@@ -368,12 +368,23 @@ def gen_strategy():
         "ext": st.lists(st.integers(0, 5), max_size=3),
         "weak": st.booleans(),
         "archive": st.booleans(),
+        # the object defines one exported function from a family of names with identical GNU hash (and
+        # identical length): sort keys that order symbols by hash / bucket tie there
+        "coll": st.sampled_from([None, None, 0, 1]),
     })
     return st.fixed_dictionaries({
-        "kind": st.sampled_from(["static", "static", "shared"]),
+        # dynexe: a dynamic executable whose colliding-name functions (and d<i> data) are exported only because
+        # helper shared objects on the link line refer to them (exports requested on demand, in traversal order)
+        "kind": st.sampled_from(["static", "shared", "shared", "dynexe", "dynexe"]),
         "objs": st.lists(obj, min_size=2, max_size=6),
         "gc": st.booleans(),
     })
+
+
+def colliding_name(family, i):
+    """Name number i (0..7) of a family of 8 names with the same GNU hash: h = h*33 + c, so the two-character
+    blocks "ab" and "bA" are interchangeable ('a'*33+'b' == 'b'*33+'A')."""
+    return f"cz{family}_" + "".join(("ab", "bA")[(i >> b) & 1] for b in range(3))
 
 
 def emit_gen(g, d):
@@ -396,6 +407,10 @@ def emit_gen(g, d):
             if o["str"]:
                 t.append(f"  lea s{i}_0(%rip), %rax")
             t.append("  ret")
+        if o.get("coll") is not None:
+            cn = colliding_name(o["coll"], i)
+            t += [f'.section .text.{cn},"ax",@progbits', f".globl {cn}", f".type {cn},@function", f"{cn}:",
+                  f"  mov ${i}, %eax", "  ret"]
         if o["comdat"] is not None:
             k = o["comdat"]
             t += [f'.section .text.cd_{k},"axG",@progbits,cd_{k},comdat', f".weak cd_{k}", f"cd_{k}:", f"  mov ${k}, %eax", "  ret"]
@@ -418,9 +433,23 @@ def emit_gen(g, d):
     main = [".globl _start", ".text", "_start:"]
     for i in range(n):
         main.append(f"  call f{i}_0@PLT" if shared else f"  call f{i}_0")
+    dsos = []
+    if g["kind"] == "dynexe":
+        wanted = [colliding_name(o["coll"], i) for i, o in enumerate(g["objs"]) if o.get("coll") is not None]
+        wanted += [f"d{i}" for i in range(n)][:3]
+        for k, order in enumerate((wanted, wanted[::-1])):
+            need = [f".globl need{k}_fn", ".text", f"need{k}_fn:"]
+            for w in order:
+                need.append(f"  mov {w}@GOTPCREL(%rip), %rax")
+            need.append("  ret")
+            srcs[f"need{k}.o"] = "\n".join(need) + "\n"
+            main.append(f"  call need{k}_fn@PLT")
+            dsos.append(f"libneed{k}.so")
     main.append("  mov $60, %eax\n  xor %edi, %edi\n  syscall")
     srcs["gmain.o"] = "\n".join(main) + "\n"
     _asm_many(srcs, d)
+    for k, so in enumerate(dsos):
+        tools.must(tools.link("ld", ["-shared", "-o", so, f"need{k}.o", "-soname", so], cwd=d), "helper shared object")
     plain = ["gmain.o"] + [f"g{i}.o" for i, o in enumerate(g["objs"]) if not o["archive"]]
     arch = [f"g{i}.o" for i, o in enumerate(g["objs"]) if o["archive"]]
     args = list(plain)
@@ -429,6 +458,8 @@ def emit_gen(g, d):
         args.append("libg.a")
     if shared:
         args = ["-shared", "--hash-style=gnu", "-soname", "libgen.so"] + args
+    if dsos:
+        args = ["--hash-style=gnu"] + args + dsos
     args.append("--gc-sections" if g["gc"] else "--no-gc-sections")
     return args
 
@@ -690,6 +721,9 @@ class C06(Check):
             ents = _input_entsizes(args, cwd)
             input_id = "gen:" + hashlib.sha1(json.dumps(case["gen"], sort_keys=True).encode()).hexdigest()[:10]
             info["classes"].append("input:gen:" + case["gen"]["kind"])
+            colls = [o.get("coll") for o in case["gen"]["objs"] if o.get("coll") is not None]
+            if any(colls.count(c) >= 2 for c in colls):
+                info["classes"].append("gnu-hash-collision:" + case["gen"]["kind"])
         else:
             cwd = os.path.join(corpus_dir(), case["input"])
             m = self.meta["inputs"][case["input"]]
